@@ -7,6 +7,9 @@ import types_common as tc
 from core import cps, uncps
 
 
+TYPES = []      # type table of the exported schema (set by export_schema.write)
+
+
 def T_open(tag, vendor=None):
     return {"e": "open", "tag": tag, "vendor": ("." in tag) if vendor is None else vendor, "text": []}
 
@@ -80,9 +83,20 @@ def project_inst(inst, schema):
     return {"cls": cls, "els": els, "mem": mem}
 
 
-def build_kw(node, schema):
+def native(text):
+    """a caller-side Python value for a text, where the text has an obvious native spelling"""
+    import decimal
+    import re
+    if re.fullmatch(r"[+-]?[0-9]{1,30}", text):
+        return int(text)
+    if re.fullmatch(r"[+-]?[0-9]+\.[0-9]+", text):
+        return decimal.Decimal(text)
+    return text
+
+
+def build_kw(node, schema, nat=False):
     """keyword-construction route: builds the instance bottom-up with Cls(*members, **children);
-    leaf values are passed as texts (the converters accept them)"""
+    leaf values are passed as texts (the converters accept them) or, with nat, as native values"""
     import ofxtools.models as M
     tag, text, kids = node
     cls = getattr(M, tag)
@@ -93,14 +107,21 @@ def build_kw(node, schema):
         a = attrs.get(k[0])
         if a is None:
             name = k[0].lower()
-            val = k[1] if k[1] is not None else build_kw(k, schema) if hasattr(M, k[0]) else None
+            val = k[1] if k[1] is not None else build_kw(k, schema, nat) if hasattr(M, k[0]) else None
             if name in kwargs:
                 raise KwRouteNotApplicable("duplicate keyword")
             kwargs[name] = val
             continue
         if a["k"] == "unsup":
             continue
-        val = k[1] if k[1] is not None else build_kw(k, schema)
+        val = k[1] if k[1] is not None else build_kw(k, schema, nat)
+        if nat and k[1] is not None and a["k"] in ("elem", "lelem"):
+            val = native(k[1])
+            if a["ty"] and isinstance(val, int) and TYPES[int(a["ty"][1:])]["k"] not in ("int", "dec"):
+                val = k[1]
+            if a["ty"] and not isinstance(val, str) and TYPES[int(a["ty"][1:])]["k"] == "dec":
+                import decimal
+                val = decimal.Decimal(k[1])
         if a["k"] in ("lagg", "lelem"):
             args.append(val)
         else:
@@ -148,7 +169,7 @@ def ev_doc(eid, doc, schema, route="etree", label="", expect="", twin=None):
                 b.feed(render_text(doc, route))
                 inst = Aggregate.from_etree(b.close())
             else:
-                inst = build_kw(to_nested(doc), schema)
+                inst = build_kw(to_nested(doc), schema, nat=(route == "kwnative"))
             out = {"ok": True, "inst": project_inst(inst, schema), "exc": ""}
         except KwRouteNotApplicable:
             return None
